@@ -126,6 +126,8 @@ static const int32_t zc_alpha[3] = {-18000, 0, 19800};
 /* offsets of the short-spell files: the jumps between them (1 h .. 6.5 h) exceed the time some of them stay in force */
 static const int32_t zc_spell_alpha[4] = {-10800, -3600, 0, 12600};
 static const int zc_spell_spacing[3] = {3600, 1800, 7200};
+/* offsets that are not a multiple of a quarter of an hour (local mean times and the like) */
+static const int32_t zc_odd_alpha[4] = {1172, -2670, 20, 0};
 #define ZC_NLAYOUT	4
 static const char zc_layout_name[ZC_NLAYOUT] = {'A', 'B', 'C', 'D'};
 #define ZC_MAXN		5
@@ -206,14 +208,15 @@ zc_src_load(const char *name, struct zc_src *s)
 		s->img = rz_gen(&g, &s->len);
 		rz_selfcheck_gen(&g, s->img, s->len, name);
 		snprintf(s->path, sizeof(s->path), "%s", zc_publish(s->img, s->len));
-	} else if (!strncmp(name, "spl:", 4)) {
+	} else if (!strncmp(name, "spl:", 4) || !strncmp(name, "odd:", 4)) {
 		/* short spells: a transition in 1990, then N-1 transitions SPACING seconds apart from 2000-01-01, types from a 4-offset alphabet
 		 * whose jumps are larger than the spacing, in every arrangement (version 2) */
 		int sp, n, code, c;
 		int64_t tr[ZC_MAXN];
 		uint8_t ty[ZC_MAXN];
 		struct rz_gen g;
-		if (sscanf(name, "spl:s%d:n%d:c%d", &sp, &n, &code) != 3 || sp < 1 || n < 1 || n > ZC_MAXN || code < 0) {
+		const int odd = name[0] == 'o';
+		if (sscanf(name + 4, "s%d:n%d:c%d", &sp, &n, &code) != 3 || sp < 1 || n < 1 || n > ZC_MAXN || code < 0) {
 			return -2;
 		}
 		c = code;
@@ -232,7 +235,7 @@ zc_src_load(const char *name, struct zc_src *s)
 		g.tr = tr;
 		g.ty = ty;
 		g.nty = 4;
-		g.off = zc_spell_alpha;
+		g.off = odd ? zc_odd_alpha : zc_spell_alpha;
 		g.leapcnt = 0;
 		s->img = rz_gen(&g, &s->len);
 		rz_selfcheck_gen(&g, s->img, s->len, name);
@@ -415,6 +418,23 @@ zc_catalogue_spells(int maxn, int nsp)
 				snprintf(nm, sizeof(nm), "spl:s%d:n%d:c%d", zc_spell_spacing[k], n, c);
 				zc_add(nm);
 			}
+		}
+	}
+}
+
+/* offsets off the quarter-hour grid: a transition in 1990, then 1..MAXN-1 transitions 30 days apart */
+static void
+zc_catalogue_odd(int maxn)
+{
+	char nm[128];
+	for (int n = 2; n <= maxn; n++) {
+		int ncode = 1;
+		for (int i = 0; i < n; i++) {
+			ncode *= 4;
+		}
+		for (int c = 0; c < ncode; c++) {
+			snprintf(nm, sizeof(nm), "odd:s2592000:n%d:c%d", n, c);
+			zc_add(nm);
 		}
 	}
 }
